@@ -6,6 +6,7 @@
 
 mod catalog;
 mod h_assert;
+mod h_c08;
 mod h_cmp;
 mod h_html;
 mod h_list;
@@ -28,6 +29,12 @@ const ENTRIES: &[(&str, Entry)] = &[
     ("h_c21_assert", h_assert::h_c21_assert),
     ("h_c21_eq2", h_assert::h_c21_eq2),
     ("h_c21_eq3", h_assert::h_c21_eq3),
+    ("h_c08_factorial", h_c08::h_c08_factorial),
+    ("h_c08_factorial_text", h_c08::h_c08_factorial_text),
+    ("h_c08_exponent", h_c08::h_c08_exponent),
+    ("h_c08_dtype", h_c08::h_c08_dtype),
+    ("h_c08_exponent_text", h_c08::h_c08_exponent_text),
+    ("h_c08_dtype_text", h_c08::h_c08_dtype_text),
     ("h_c10_parse", h_parse::h_c10_parse),
     ("h_c18_step", h_list::h_c18_step),
     ("h_c18_hist", h_list::h_c18_hist),
